@@ -25,18 +25,18 @@ func blk(txs ...TxSpec) BlockSpec { return BlockSpec{Txs: txs} }
 func menuSends() []BlockSpec {
 	return []BlockSpec{
 		blk(tx("send", "A1", "to", "A2", "amount", "1")),
-		blk(tx("send", "A3", "to", "NEW", "amount", "1")),            // exactly balance - fee
-		blk(tx("send", "A3", "to", "A2", "amount", "2")),             // one more than the sender can cover after the fee
-		blk(tx("send", "A1", "to", "A1", "amount", "5")),             // to self
+		blk(tx("send", "A3", "to", "NEW", "amount", "1")),                       // exactly balance - fee
+		blk(tx("send", "A3", "to", "A2", "amount", "2")),                        // one more than the sender can cover after the fee
+		blk(tx("send", "A1", "to", "A1", "amount", "5")),                        // to self
 		blk(tx("send", "A2", "to", "module:staked_tokens_pool", "amount", "3")), // to a module account
-		blk(tx("send", "A1", "to", "A2", "amount", "9989999")),       // everything except the fee (+1 short)
+		blk(tx("send", "A1", "to", "A2", "amount", "9989999")),                  // everything except the fee (+1 short)
 	}
 }
 
 func menuNodes() []BlockSpec {
 	return []BlockSpec{
-		blk(tx("node_stake", "N3", "value", "1000000", "chains", "0001")),                        // new node, custodial
-		blk(tx("node_stake", "O1", "node", "N1", "value", "4000000", "output", "O1", "chains", "0001+0002")), // edit-stake by output address: next bin, new chain
+		blk(tx("node_stake", "N3", "value", "1000000", "chains", "0001")),                                        // new node, custodial
+		blk(tx("node_stake", "O1", "node", "N1", "value", "4000000", "output", "O1", "chains", "0001+0002")),     // edit-stake by output address: next bin, new chain
 		blk(tx("node_stake", "N2", "value", "2000000", "output", "N2", "chains", "0002", "delegators", "R1:50")), // edit chains + delegators by operator
 		blk(tx("node_unstake", "N1")),
 		blk(tx("node_unstake", "N2")),
@@ -50,8 +50,8 @@ func menuApps() []BlockSpec {
 	return []BlockSpec{
 		blk(tx("app_stake", "P2", "value", "1000000")),
 		blk(tx("app_stake", "P1", "value", "3000000", "chains", "0001+0002")), // edit-stake up
-		blk(tx("app_stake", "P1", "app", "NEW", "value", "0", "chains", "")), // transfer to a new key (signed by the current app)
-		blk(tx("app_stake", "P1", "app", "P2", "value", "0", "chains", "")),  // transfer to an existing account key
+		blk(tx("app_stake", "P1", "app", "NEW", "value", "0", "chains", "")),  // transfer to a new key (signed by the current app)
+		blk(tx("app_stake", "P1", "app", "P2", "value", "0", "chains", "")),   // transfer to an existing account key
 		blk(tx("app_unstake", "P1")),
 		blk(tx("app_unstake", "P2")),
 	}
